@@ -1,4 +1,5 @@
 """C13 -- the pending pool holds only valid, mutually compatible transactions (stateful: submissions x head changes)."""
+import os
 import hypothesis
 from hypothesis import settings, strategies as st
 from hypothesis.stateful import RuleBasedStateMachine, initialize, rule, run_state_machine_as_test
@@ -23,7 +24,7 @@ RULE = ("Hypothesis rule-based state machine over a simulated node on a generate
         "(the first spending a pooled transaction's input) are only partly served before the connection is lost. Oracle after EVERY step against "
         "the reference ledger at the reference head: each pooled transaction is reference-valid there, no two share a reference; "
         "a transaction failing validity or conflicting is not admitted; after a head change the pool == previous pool filtered by "
-        "reference validity, order preserved. non-trivial = machine with >= 1 eviction caused by a fork switch and >= 1 refused "
+        "reference validity, order preserved. non-trivial = machine with >= 1 head change that evicted or could evict (fork switch, extension, own find, rollback, partial download) and >= 1 refused "
         "conflicting submission; distinct = digest of the op list.")
 ASSUMPTIONS = ["simnet transport model; test configuration", "all delivered blocks are honest (block validity is C01/C09's subject)"]
 MIN_NONTRIVIAL = {"quick": 20, "thorough": 400}
@@ -503,6 +504,81 @@ class Exec:
                     self.fail("eviction", "valid-transaction-evicted-on-head-change", "after a partial bulk download still-valid transactions were evicted or reordered")
             self.pool = want
             self.invariant("after a partial bulk download")
+        elif k == "miner_find":
+            # the node's OWN miner finds a block on the head (the real MinerWatcher handlers; the harness plays the mining
+            # process): the head moves, so the transactions it just mined must leave the pool
+            from datetime import datetime
+            from skepticoin import mining as MI, consensus as C
+            from skepticoin.wallet import Wallet
+            from vf.props.c12 import Q, NT, margs
+            if self.led.prescribed_target(self.head(), self.head().blk.ts + 60) < bytes([0, 64]) + bytes(30) or self.flags.get("miner_finds", 0) >= 2:
+                return                                          # too hard to find within the budget
+            mw = MI.MinerWatcher.__new__(MI.MinerWatcher)
+            nt = NT()
+            nt.local_peer = self.node.lp
+            mw.network_thread, mw.send_queues, mw.mining_args, mw.hash_stats = nt, [Q()], {}, {}
+            mw.coinstate = self.node.cm.coinstate
+
+            class A:
+                quiet = True
+            mw.args, mw.log_silencer, mw.start_time = A(), [], datetime.fromtimestamp(1)
+            wk = KEYS[(op[1] % 4) + 4]
+            mw.wallet = Wallet({wk.pub: wk.priv, KEYS[3].pub: KEYS[3].priv}, [wk.pub, KEYS[3].pub], {})
+            mw.public_key = mw.wallet.get_annotated_public_key("reserved for potentially mined block")
+            mw.balance = mw.start_balance = 0
+            real_time = MI.time
+            MI.time = lambda: self.simnet.CLOCK.now
+            self.simnet.CLOCK.now = max(self.simnet.CLOCK.now, self.head().blk.ts + 40)
+            old_head = self.head()
+            prev_pool = list(self.pool)
+            cwd = os.getcwd()
+            os.chdir(env.fresh_subdir("c13miner"))
+            try:
+                for nonce in range(op[2], op[2] + 8_000):
+                    with env.quiet():
+                        mw.handle_request_scrypt_input_message(0, nonce & 0xFFFFFFFF)
+                        summary, height = mw.send_queues[0].items[-1][1]
+                        del mw.send_queues[0].items[:]
+                        before = mw.coinstate
+                        mw.handle_scrypt_output_message(0, C.construct_summary_hash(summary, height))
+                    if mw.coinstate is not before:
+                        break
+                else:
+                    return
+            except Exception as e:
+                self.fail("miner", "miner-find-raised:" + exc_sig(e), "the node's own miner raised %r with %d pooled transaction(s)" % (e, len(prev_pool)))
+                return
+            finally:
+                MI.time = real_time
+                os.chdir(cwd)
+            cs = self.node.cm.coinstate
+            if cs.current_chain_hash == old_head.id:
+                return
+            plain = self.b.from_sk_block(cs.block_by_hash[cs.current_chain_hash])
+            if plain.prev != old_head.id or self.led.validate(plain, plain.ts + 30):
+                self.fail("harness", "harness:unexpected-miner-block", "the miner's block is not a valid successor of the head")
+                return
+            self.n += 1
+            label = "mf%d" % self.n
+            for j, t in enumerate(plain.txs):
+                self.world.txs["%s.%d" % (label, j)] = t
+            self.world.accept(label, plain)
+            self.acc.add(plain)
+            self.valid_snapshot = list(self.acc.order)
+            self.flags["miner_finds"] = self.flags.get("miner_finds", 0) + 1
+            self.flags["head_changes"] += 1
+            utxo = self.head().utxo
+            want = [t for t in prev_pool if tx_valid(t, utxo) is None]
+            got = [t.id() for t in self.node_pool()]
+            if got != [t.id() for t in want]:
+                gs, ws = set(got), {t.id() for t in want}
+                if gs - ws:
+                    self.fail("eviction", "invalid-transaction-kept-after-own-find", "after the node's own miner found a block (%d transaction(s) mined) %d no-longer-valid transaction(s) stayed in the pool" % (
+                        len(plain.txs) - 1, len(gs - ws)))
+                else:
+                    self.fail("eviction", "valid-transaction-evicted-on-head-change", "after the node's own find still-valid transactions were evicted or reordered")
+            self.pool = want
+            self.invariant("after the node's own find")
         elif k == "extend":
             _, mask, conflict, via, miner = op
             take = [t for j, t in enumerate(self.pool) if (mask >> j) & 1]
@@ -658,6 +734,10 @@ class Machine(RuleBasedStateMachine):
     def ibd_rollback(self, n, a, miner):
         self.do(["ibd_rollback", n, a, miner])
 
+    @rule(key=st.integers(0, 3), nonce=st.integers(0, 1 << 30))
+    def miner_find(self, key, nonce):
+        self.do(["miner_find", key, nonce])
+
     @rule(mask=st.integers(0, 15), conflict=st.integers(0, 3), via=st.sampled_from(["relay", "set"]), miner=st.integers(0, 7))
     def extend(self, mask, conflict, via, miner):
         self.do(["extend", mask, conflict, via, miner])
@@ -674,7 +754,8 @@ class Machine(RuleBasedStateMachine):
         res.count("machines")
         for k, v in self.ex.flags.items():
             res.count(k, v)
-        if self.ex.flags["evicted_by_fork"] and self.ex.flags["conflict_refused"]:
+        fl = self.ex.flags
+        if (fl["evicted_by_fork"] or fl["evicted_by_extension"] or fl.get("miner_finds") or fl.get("partial_downloads") or fl.get("rollbacks")) and fl["conflict_refused"]:
             res.nontrivial(env.digest(case))
         if res.counters["machines"] in (2, 9):
             res.sample(case)
